@@ -39,6 +39,8 @@ SERVER_KINDS = {
     "injected": (EHLO_TLS, step(b"220 go\r\n250-injected\r\n250 AUTH LOGIN\r\n")),
     # STARTTLS offered after an empty line / after a line of blanks of the EHLO reply
     "okblank": (b"250-srv\r\n250-\r\n250-STARTTLS\r\n250 AUTH LOGIN PLAIN\r\n", step(b"220 go\r\n")),
+    # STARTTLS offered on line 41 of a 45-line EHLO reply (round 7: C06/m20 kept only the first 32 lines of a reply)
+    "oklate": (b"250-srv\r\n" + b"".join(b"250-X-FILLER-%02d\r\n" % i for i in range(39)) + b"250-STARTTLS\r\n250-X-A\r\n250-X-B\r\n250-X-C\r\n250 AUTH LOGIN PLAIN\r\n", step(b"220 go\r\n")),
     "okblank2": (b"250-srv\r\n250-  \r\n250-X-A b\r\n250-STARTTLS\r\n250 AUTH LOGIN PLAIN\r\n", step(b"220 go\r\n")),
 }
 
@@ -70,7 +72,7 @@ def gen(tier, rng):
                 for kind in SERVER_KINDS:
                     if tier == "quick" and mode == "n" and (cert != "g" or flags != "1000"):
                         continue
-                    if tier == "quick" and kind in ("refused4", "refused5", "garbage", "notoffered", "okblank", "okblank2") and cert != "g":
+                    if tier == "quick" and kind in ("refused4", "refused5", "garbage", "notoffered", "okblank", "okblank2", "oklate") and cert != "g":
                         continue
                     for client in "sa":
                         cases.append(case(client, mode, cert, flags, i % 2 == 0, kind))
